@@ -902,6 +902,8 @@ func (c *mgComp) Run(args []string) string {
 			held = 'S'
 		}
 		return mgReaddRace(k, held)
+	case "rtover":
+		return mgRTOver()
 	case "pace":
 		if len(args) != 2 {
 			return "bad-op"
